@@ -231,6 +231,29 @@ func runC09(c *Ctx) {
 		if err != nil {
 			continue
 		}
+		// every second envelope carries coordinates on its supplier's first address (the
+		// only JSON floats a document holds), negative one-digit values among them
+		if used%2 == 0 {
+			if n, perr := jmut.Parse(it.Data); perr == nil {
+				if sup := n.Get("doc").Get("supplier"); sup != nil && sup.K == jmut.Obj {
+					addrs := sup.Get("addresses")
+					if addrs == nil || addrs.K != jmut.Arr || len(addrs.A) == 0 {
+						addrs = jmut.Ar(jmut.O(jmut.Member{Key: "locality", Val: jmut.S("Greenwich")}, jmut.Member{Key: "country", Val: jmut.S("GB")}))
+						sup.Set("addresses", addrs)
+					}
+					pairs := [][2]string{{"51.5", "-0.1"}, {"-0.07", "2e-7"}, {"-33.9", "-70.0"}, {"-5.0e-1", "0.3"}}
+					pr := pairs[(used/2)%len(pairs)]
+					addrs.A[0].Set("coords", jmut.O(jmut.Member{Key: "lat", Val: jmut.N(pr[0])}, jmut.Member{Key: "lon", Val: jmut.N(pr[1])}))
+					if e2, e2err := gx.ParseEnvelope(n.Bytes()); e2err == nil {
+						var cerr error
+						if p, _ := Safely(func() { cerr = e2.Calculate() }); p == nil && cerr == nil {
+							env = e2
+							c.R.Count("signed_envelopes_with_coordinates", 1)
+						}
+					}
+				}
+			}
+		}
 		// header entries present before signing, chosen per envelope
 		mask := rng.IntN(16)
 		if fixed := []int{15, 0, 5, 10, 3, 12}; used < len(fixed) {
@@ -296,6 +319,16 @@ func runC09(c *Ctx) {
 		}
 		valid := false
 		Safely(func() { valid = env.Validate() == nil })
+		// the digest the harness's own canonicaliser gives the document that is there
+		// now: when the header states another one, the envelope is not what was signed
+		// and no path may accept it (whatever the library's canonicaliser says)
+		refMismatch := false
+		if rd, ok := refDigestOfEnvelope(cs.envRaw); ok {
+			if dv := cur.Get("dig"); dv != nil && dv.Get("val") != nil {
+				c.R.Count("reference_digests_compared", 1)
+				refMismatch = dv.Get("val").S != rd
+			}
+		}
 		verdicts := map[bool]int{}
 		file := filepath.Join(tmp, fmt.Sprintf("case-%d.json", i))
 		_ = os.WriteFile(file, cs.envRaw, 0o644)
@@ -311,10 +344,13 @@ func runC09(c *Ctx) {
 			p, _ := Safely(func() { lerr = env.Verify(pks...) })
 			c.R.Count("verifications:library", 1)
 			c09judge(c, cs, "library", ks, want, p == nil && lerr == nil, fmt.Sprint(lerr, p))
+			if refMismatch && valid && p == nil && lerr == nil {
+				c09judge(c, cs, "library-validate+verify", ks, false, true, "the header digest is not the reference digest of the document, yet Validate and Verify both pass")
+			}
 			if len(ks) != 1 {
 				continue
 			}
-			wantCLI := want && valid
+			wantCLI := want && valid && !refMismatch
 			// (C) process
 			cmd := exec.Command(gbin, "verify", "-k", pubFiles[ks[0]], file)
 			var out bytes.Buffer
@@ -351,7 +387,7 @@ func runC09(c *Ctx) {
 	if crashed, what := server.Crashed(); crashed {
 		c.R.Set("server_crash", what)
 	}
-	c.Require("header_api_operations", "verifications:library", "verifications:cli", "verifications:http", "verifications:bulk", "history:doc-edited-stale", "history:doc-edited-invalid-stale")
+	c.Require("reference_digests_compared", "signed_envelopes_with_coordinates", "header_api_operations", "verifications:library", "verifications:cli", "verifications:http", "verifications:bulk", "history:doc-edited-stale", "history:doc-edited-invalid-stale")
 }
 
 func runWithTimeout(cmd *exec.Cmd, d time.Duration) error {
@@ -651,6 +687,40 @@ func c09histories(c *Ctx, file, base string, raw []byte, sigs []c09sig, keys []*
 		doc.Set("code", jmut.S("EDITED-77")) // documents whose lines have no quantity (payments)
 		return true
 	})
+	// a coordinate with the other sign (another place on earth), with and without recalculation
+	flipCoord := func(n *jmut.Node, which string) bool {
+		sup := n.Get("doc").Get("supplier")
+		if sup == nil || sup.K != jmut.Obj {
+			return false
+		}
+		addrs := sup.Get("addresses")
+		if addrs == nil || addrs.K != jmut.Arr || len(addrs.A) == 0 || addrs.A[0].Get("coords") == nil {
+			return false
+		}
+		v := addrs.A[0].Get("coords").Get(which)
+		if v == nil || v.K != jmut.Num {
+			return false
+		}
+		if strings.HasPrefix(v.Num, "-") {
+			v.Num = v.Num[1:]
+		} else {
+			v.Num = "-" + v.Num
+		}
+		return true
+	}
+	for _, which := range []string{"lat", "lon"} {
+		which := which
+		add("coordinate "+which+" given the other sign, not recalculated", "doc-edited-stale", func(n *jmut.Node) bool { return flipCoord(n, which) })
+		if n, err := jmut.Parse(raw); err == nil && flipCoord(n, which) {
+			if env, err := gx.ParseEnvelope(n.Bytes()); err == nil {
+				var cerr error
+				if p, _ := Safely(func() { cerr = env.Calculate() }); p == nil && cerr == nil {
+					b, _ := json.Marshal(env)
+					out = append(out, &c09case{name: "coordinate " + which + " given the other sign and recalculated, signatures kept", base: base, file: file, envRaw: b, sigs: sigs, class: "doc-edited-recalculated"})
+				}
+			}
+		}
+	}
 	add("document edited into an invalid one, not recalculated", "doc-edited-invalid-stale", func(n *jmut.Node) bool {
 		doc := n.Get("doc")
 		if doc.Get("code") == nil || doc.Get("type") == nil {
